@@ -21,33 +21,54 @@ Proof.
   - intros ->. assert (contains [] (h :: ph') = true) by (apply contains_spec; apply occurs_nil). congruence.
 Qed.
 
-(* a prefix of the output (started with prev = false) that avoids the first placeholder byte was forwarded literally *)
-Lemma emit_prefix : forall h ph', ph = h :: ph' ->
-  forall p s fl v, ~ In h p -> length fl = length s -> emit ph false s fl = p ++ v ->
-  exists b, s = p ++ b /\ firstn (length p) (map fst fl) = repeat false (length p).
+(* the new, exact class is contained in the old one: whatever [indep] admitted is still admitted *)
+Lemma indep_no_clash : forall p, indep ph p = true -> ph_clash ph p = false.
 Proof.
-  intros h ph' Eph. induction p as [|d p IH]; intros s fl v Hh Hlen He.
-  - exists s. split; reflexivity.
-  - destruct s as [|c s].
-    + simpl in He. discriminate.
-    + destruct fl as [|[cv jn] fl]; [discriminate|]. cbn [emit] in He.
-      destruct cv.
-      * (* a covered byte after an uncovered one writes the placeholder, whose first byte is not in p *)
-        cbn [andb] in He. rewrite Eph in He. cbn [app] in He. injection He as Hd _.
-        exfalso. apply Hh. left. symmetry. exact Hd.
-      * cbn [app] in He. injection He as Hc He. subst d.
-        destruct (IH s fl v) as [b [Hs Hf]].
-        -- intros Hin. apply Hh. right. exact Hin.
-        -- simpl in Hlen. lia.
-        -- exact He.
-        -- exists b. split; [rewrite Hs; reflexivity|]. cbn [length map fst firstn repeat]. rewrite Hf. reflexivity.
+  intros p H. destruct (indep_spec p H) as [h [ph' [Eph [Hh [Hlast [Hnocc Hp]]]]]].
+  unfold ph_clash. repeat (apply orb_false_iff; split).
+  - apply not_true_is_false. intros Hc. apply contains_spec in Hc. contradiction.
+  - apply not_true_is_false. intros Hc. apply contains_spec in Hc. destruct Hc as [a [b Hc]].
+    apply Hh. rewrite Hc, Eph. apply in_or_app. right. left. reflexivity.
+  - apply not_true_is_false. intros Hc. apply overlap_spec in Hc. destruct Hc as [x [y [z [Hy [Hpy Hphy]]]]].
+    apply Hh. rewrite Hpy. apply in_or_app. right. rewrite Eph in Hphy.
+    destruct y as [|y0 y]; [contradiction|]. injection Hphy as -> _. left. reflexivity.
+  - apply not_true_is_false. intros Hc. apply overlap_spec in Hc. destruct Hc as [x [y [z [Hy [Hphy Hpy]]]]].
+    apply Hlast. rewrite Hpy. apply in_or_app. left.
+    rewrite Hphy. apply last_in_suffix. exact Hy.
 Qed.
 
-Lemma emit_occ : forall p, indep ph p = true ->
+(* [q] is the rest of an occurrence of p = w ++ q whose first bytes [w] were matched against literally forwarded bytes:
+   if it is at the head of the output of [emit] started with prev = false, it was forwarded literally as well - a
+   placeholder copy at any point would make a non-empty end of p a beginning of the placeholder, or put the whole
+   placeholder inside p *)
+Lemma emit_prefix : forall p, ph_clash ph p = false ->
+  forall q w s fl v, p = w ++ q -> length fl = length s -> emit ph false s fl = q ++ v ->
+  exists b, s = q ++ b /\ firstn (length q) (map fst fl) = repeat false (length q).
+Proof.
+  intros p Hc. destruct (no_clash_spec ph p Hc) as [Hin [Hcont [Hpre Hsuf]]].
+  induction q as [|d q IH]; intros w s fl v Hp Hlen He.
+  - exists s. split; reflexivity.
+  - destruct s as [|c s]; [simpl in He; discriminate|].
+    destruct fl as [|[cv jn] fl]; [discriminate|]. cbn [emit] in He.
+    destruct cv.
+    + cbn [andb] in He. exfalso.
+      destruct (app_eq_app _ _ _ _ He) as [l [[H1 H2] | [H1 H2]]].
+      * apply (Hpre w (d :: q) l); [discriminate | exact Hp | exact H1].
+      * apply Hcont. exists w, l. rewrite Hp, H1. reflexivity.
+    + cbn [app] in He. injection He as Hcd He. subst d.
+      destruct (IH (w ++ [c]) s fl v) as [b [Hs Hf]].
+      * rewrite <- app_assoc. exact Hp.
+      * simpl in Hlen. lia.
+      * exact He.
+      * exists b. split; [rewrite Hs; reflexivity|]. cbn [length map fst firstn repeat]. rewrite Hf. reflexivity.
+Qed.
+
+Lemma emit_occ : forall p, ph_clash ph p = false ->
   forall s fl prev u v, length fl = length s -> emit ph prev s fl = u ++ p ++ v ->
   exists a b, s = a ++ p ++ b /\ firstn (length p) (skipn (length a) (map fst fl)) = repeat false (length p).
 Proof.
-  intros p Hind. destruct (indep_spec p Hind) as [h [ph' [Eph [Hh [Hlast [Hnocc Hp]]]]]].
+  intros p Hc. destruct (no_clash_spec ph p Hc) as [Hin [Hcont [Hpre Hsuf]]].
+  destruct (no_clash_nonempty ph p Hc) as [Hp _].
   induction s as [|c s IH]; intros fl prev u v Hlen He.
   - simpl in He. destruct u; [destruct p; [congruence | discriminate] | discriminate].
   - destruct fl as [|[cv jn] fl]; [discriminate|]. cbn [emit] in He.
@@ -67,25 +88,19 @@ Proof.
         -- (* placeholder or nothing *)
            destruct (prev && jn).
            ++ destruct u; [simpl in H1; congruence | discriminate].
-           ++ (* ph = u ++ l: the occurrence starts inside the placeholder *)
+           ++ (* ph = u ++ l: the occurrence starts inside a copy of the placeholder *)
               exfalso. destruct (app_eq_app _ _ _ _ H2) as [z [[H3 H4] | [H3 H4]]].
-              ** (* p = l ++ z: p contains the last placeholder byte *)
-                 apply Hlast. rewrite H3. apply in_or_app. left.
-                 rewrite H1. rewrite (last_cons_default (u ++ l) h (last (u ++ l) h)).
-                 --- apply last_in_suffix. exact Hl.
-                 --- intros Hn. apply app_eq_nil in Hn. destruct Hn as [_ Hn]. contradiction.
-              ** (* l = p ++ z: p is a piece of the placeholder *)
-                 apply Hnocc. exists u, z. rewrite H1, H3. reflexivity.
+              ** (* p = l ++ z: a non-empty end of the placeholder is a beginning of p *)
+                 apply (Hsuf u l z); [exact Hl | exact H1 | exact H3].
+              ** (* l = p ++ z: p lies inside the placeholder *)
+                 apply Hin. exists u, z. rewrite H1, H3. reflexivity.
         -- (* the literal byte c: u = [], l = [c] *)
            destruct u as [|u0 u].
            ++ simpl in H1. subst l. destruct p as [|d p']; [congruence|].
               cbn [app] in H2. injection H2 as Hd H2. subst d.
-              destruct (emit_prefix h ph' Eph p' s fl v) as [b [Hs Hf]].
-              ** intros Hin. apply Hh. right. exact Hin.
-              ** exact Hlen'.
-              ** symmetry. exact H2.
-              ** exists [], b. split; [rewrite Hs; reflexivity|].
-                 cbn [length skipn map fst firstn repeat]. rewrite Hf. reflexivity.
+              destruct (emit_prefix (c :: p') Hc p' [c] s fl v eq_refl Hlen' (eq_sym H2)) as [b [Hs Hf]].
+              exists [], b. split; [rewrite Hs; reflexivity|].
+              cbn [length skipn map fst firstn repeat]. rewrite Hf. reflexivity.
            ++ injection H1 as _ H1. destruct u; [simpl in H1; congruence | discriminate].
     + (* u = k ++ l: the occurrence lies in the rest of the output *)
       apply (Hlater l). exact H2.
@@ -94,13 +109,13 @@ End Emit.
 
 (* no occurrence in the output: line-local secrets that cannot be confused with placeholder text *)
 Theorem emit_no_secret : forall ph pats p s,
-  In p pats -> has_inner_newline p = false -> indep ph p = true ->
+  In p pats -> has_inner_newline p = false -> ph_clash ph p = false ->
   ~ occurs p (emit ph false s (stream_flags pats s)).
 Proof.
   intros ph pats p s Hin Hnl Hind [u [v He]].
   destruct (emit_occ ph p Hind s (stream_flags pats s) false u v (stream_flags_length pats s) He)
     as [a [b [Hs Hf]]].
   pose proof (stream_cov_occ pats p a b Hin Hnl) as Ht. rewrite <- Hs in Ht. unfold stream_cov in Ht.
-  rewrite Hf in Ht. destruct (indep_spec ph p Hind) as [_ [_ [_ [_ [_ [_ Hp]]]]]].
+  rewrite Hf in Ht. destruct (no_clash_nonempty ph p Hind) as [Hp _].
   apply (repeat_eq_false_true (length p)); [destruct p; [congruence | simpl; lia] | symmetry; exact Ht].
 Qed.
